@@ -32,6 +32,15 @@ def opHandle (j : Json) : R Json := do
   return Json.mkObj [("resp", optJ respJ o.resp), ("invoked", optJ Json.str o.invoked),
                      ("chanReg", o.chanReg)]
 
+/-- op "wscall": one inbound remote-call frame through `handleCall` (writer selection included). -/
+def opWsCall (j : Json) : R Json := do
+  let h ← handler (← fld j "handler")
+  let (o, w) := wsCall h
+    { id := ← nid (← fld j "id"), method := (← str j "method").toList,
+      params := ← paramsIn (← fld j "params") }
+  return Json.mkObj [("wire", optJ respJ w), ("invoked", optJ Json.str o.invoked),
+                     ("chanReg", o.chanReg)]
+
 /-- op "agree": the client names `fmt ns field` (or its `rpc_method` tag) and the server dispatches it. -/
 def opAgree (j : Json) : R Json := do
   let hj ← fld j "handler"
@@ -116,6 +125,8 @@ def opFrames (j : Json) : R Json := do
       ("cancelled", Json.arr (s.cancelled.map nidJ).toArray),
       ("invoked", Json.arr ((s.spawned.filterMap (·.invoked)).map Json.str).toArray),
       ("responses", Json.arr ((s.spawned.filterMap (·.resp)).map respJ).toArray),
+      ("wire", Json.arr (s.wire.map respJ).toArray),
+      ("chanRegs", (s.spawned.filter (·.chanReg)).length),
       ("delivered", Json.arr (s.delivered.map (fun p => Json.arr #[Json.str p.1, Json.str p.2])).toArray),
       ("closed", Json.arr (s.closedChans.map Json.str).toArray),
       ("mailbox", Json.arr (s.mailbox.map nidJ).toArray)]
@@ -506,6 +517,7 @@ def run (j : Json) : R Json := do
   match (← str j "op") with
   | "http" => opHttp j
   | "handle" => opHandle j
+  | "wscall" => opWsCall j
   | "agree" => opAgree j
   | "perm" => opPerm j
   | "backoff" => opBackoff j
